@@ -32,7 +32,13 @@ RULE = ("Editing blocks: generated mesh (surfaces: 15 base shapes x face deletio
         "face / cell records (lists, tuples, numpy rows of int64/32/16/uint8, mouette.mesh.from_arrays), element ids as numpy integer "
         "scalars, config.display_duplicate_attribute_warning, config.complete_edges_from_faces (surfaces; off = explicit edge list), "
         "placement far from the origin (1e3 / 1e6 x size) or anisotropic scaling, and in ~1/8 of the blocks an exception (out-of-range "
-        "element id or an error of the caller) that leaves the block after 0-4 operations and is caught. The editor state is observed after every "
+        "element id or an error of the caller) that leaves the block after 0-4 operations and is caught; unusual element roles "
+        "(a two-face 'pillow' component - two triangles or quads on the same vertices - alone or next to the mesh, with the histories "
+        "whose result an end-point-keyed edge model can still store; unused vertices as first / middle / last id, also in tet meshes); "
+        "0-2 decoy meshes of the same size built, edited, dropped and garbage-collected before the case. Sub-check size_thresholds: "
+        "triangulated grids whose vertex / face count stays below 2**8 or 2**16 before a refinement round and reaches, passes or misses "
+        "it by one during the round - mostly a small grid padded with unused vertices (front / middle / back), 1 case in 12 a real "
+        "grid of 8000-16600 vertices. The editor state is observed after every "
         "operation and compared with a harness-side refinement of the previously observed state; after each block the result and the "
         "object passed in are validated and swept with the C01/C03 reference-connectivity battery. non-trivial = the mesh has a "
         "non-triangular face or a border (surfaces) / an interior face (volumes) / >=2 edges (polylines), or >=2 operations or a second "
@@ -45,8 +51,11 @@ ASSUMPTIONS = ["inputs are oriented manifold surfaces / conforming tetrahedral m
                "position tolerance = 1e-9 x size of the mesh + 1e-13 x largest coordinate magnitude; area / volume 1e-9 + 256 eps x magnitude/size",
                "after an exception escaped from an editing block the object passed in must be its former self or a consistent mesh on the "
                "data processed before the exception (what the unchanged library does: the block still rebuilds it); editor.mesh is not looked at",
-               "config.complete_faces_from_cells / complete_edges_from_faces = False are not drawn for tetrahedral meshes (the unchanged "
-               "library fails there: reported finding C13-7)"]
+               "config.complete_faces_from_cells / complete_edges_from_faces = False are not drawn for tetrahedral meshes (outside the "
+               "quantifier of C13; the unchanged library relies on the completion there)",
+               "meshes with a pillow component: 1-to-4 refinement and any triangulation after a 1-to-3-quads refinement are not issued "
+               "(the refined pillow has two edges between the same two vertices, which the library's end-point-keyed edges cannot store); "
+               "the validator then accepts two faces on the same vertex set, everything else unchanged"]
 
 MAX_FACES = 450        # operations whose result would exceed this many faces are skipped (counted as label)
 SWEEP_CAP = 80         # per query kind, at most this many elements are swept on large results
